@@ -379,6 +379,23 @@ def extract(repo=None):
         raise _TE("Terminal.setLemma: default dOpt {mprecision,raw,ord} of NO not found")
     env["defaultMPrecision"] = dflt[0]
 
+    # Constituent.dOpt: which values of "mprecision" are accepted
+    tC = _parse(os.path.join(src, "Constituent.py"))
+    dopt = _class_method(tC, "Constituent", "dOpt", "Constituent.py")
+    mp_if = None
+    for n in ast.walk(dopt):
+        if isinstance(n, ast.If) and isinstance(n.test, ast.Compare) and getattr(n.test.left, "id", None) == "key" \
+                and isinstance(n.test.comparators[0], ast.Constant) and n.test.comparators[0].value == "mprecision":
+            mp_if = n
+    if mp_if is None or not mp_if.body or not isinstance(mp_if.body[0], ast.If):
+        raise _TE("Constituent.dOpt: the `key==\"mprecision\"` branch was not found")
+    t = ast.unparse(mp_if.body[0].test).replace(" ", "")
+    if t == "isinstance(val,int)":
+        env["fixMPrecisionChecked"] = False
+    elif t in ("isinstance(val,int)andnotisinstance(val,bool)andval>=0", "isinstance(val,int)and(notisinstance(val,bool))and(val>=0)"):
+        env["fixMPrecisionChecked"] = True
+    else:
+        raise _TE("Constituent.dOpt: unexpected test of the mprecision value: " + ast.unparse(mp_if.body[0].test))
     # rules-*.json : number.symbol
     for lang in ("en", "fr"):
         p = os.path.join(src, "data", "rules-%s.json" % lang)
@@ -430,7 +447,7 @@ def render(env):
     for k in ("wordLimit", "ordLimit"):
         L.append("def %s : Option Int := %s" % (k, "none" if env[k] is None else "some %d" % env[k]))
     L.append("/-- which defensive repairs of the NO branch of Terminal.setLemma / Terminal.real are present in the code -/")
-    for k in ("fixOtherSetsValue", "fixFloatGuarded", "fixMPrecisionGet"):
+    for k in ("fixOtherSetsValue", "fixFloatGuarded", "fixMPrecisionGet", "fixMPrecisionChecked"):
         L.append("def %s : Bool := %s" % (k, "true" if env[k] else "false"))
     L.append("")
     L.append("/-- the three symbol triples (i, v, x) of `roman`, units / tens / hundreds -/")
